@@ -56,6 +56,7 @@ pub proof fn lemma_sem_kind(ev: &Evaluator<'_>, slots: SlotEnv, a: Expr, b: Expr
     match a.expr_kind {
         ExprKind::Set(items) => { lemma_items_kind(ev, slots, a, b, items@.len()); },
         ExprKind::ExtensionFunctionApp { fn_name, args } => { lemma_items_kind(ev, slots, a, b, args@.len()); },
+        ExprKind::Record(m) => { lemma_items_kind(ev, slots, a, b, m.key_order().len()); },
         _ => {},
     }
 }
